@@ -77,7 +77,7 @@ pub fn run(args: &Args) -> i32 {
     let report = Report::new(
         args,
         "exploration",
-        "FSST: seeded byte-string arrays; every third one is a structured binary corpus (records over 22-64 multi-byte tokens that together cover all 256 byte values, Zipf frequencies, cut at token boundaries and mid-token, optional trailing 0x00/0xFF, record lengths around multiples of 511, totals around the 32 KiB threshold), the others rotate over 14 kinds (text, random, all-256, repeats, tiny, huge, threshold boundary, 0xFF-heavy, 511-chunk lengths, mixed, below-threshold, empty, skewed, prefixes) x i32/i64 offsets x optional non-zero first offset; non-trivial iff the encoder really ran (encoder switch on), distinct by (kind, offset width, #symbols, ratio bucket, log2 sizes). Bit-packing: ALL (u8/u16/u32/u64, width 0..=bits) pairs x 9 value patterns x reps on 1024-value chunks masked to the width with garbage-prefilled guarded outputs; non-trivial iff width>0 and some value non-zero, distinct by (type,width,pattern).",
+        "FSST: seeded byte-string arrays; a quarter are 'every token is a symbol' corpora (32 tokens of 8 (4..7) bytes, each byte value in exactly one token, two frequency tiers, a least-frequent token whose rarest byte sits at a chosen position, most records ending 1..7 bytes before the end of their last token, optional trailing 0x00), a quarter are Zipf token corpora (records over 22-64 multi-byte tokens that together cover all 256 byte values, Zipf frequencies, cut at token boundaries and mid-token, optional trailing 0x00/0xFF, record lengths around multiples of 511, totals around the 32 KiB threshold), the rest rotate over 14 kinds (text, random, all-256, repeats, tiny, huge, threshold boundary, 0xFF-heavy, 511-chunk lengths, mixed, below-threshold, empty, skewed, prefixes) x i32/i64 offsets x optional non-zero first offset; non-trivial iff the encoder really ran (encoder switch on), distinct by (kind, offset width, #symbols, ratio bucket, log2 sizes). Bit-packing: ALL (u8/u16/u32/u64, width 0..=bits) pairs x 9 value patterns x reps on 1024-value chunks masked to the width with garbage-prefilled guarded outputs; non-trivial iff width>0 and some value non-zero, distinct by (type,width,pattern).",
         (40, 600),
     )
     .with_min_nontrivial(400);
